@@ -225,12 +225,27 @@ func c15IP4(c *wk.Ctx, ttl int, src, dst netip.Addr, plen int, proto byte, appen
 		copy(buf[20:], payload)
 		out = ip.SetPayload(buf[20:20+plen], proto)
 	}
+	// a header is completed again when its payload changes (a reply buffer reused for the next packet, a retransmission with
+	// another length): the second completion must not depend on what the first one left in the checksum field
+	again := int(i % 3)
+	if again > 0 {
+		plen2 := plen
+		if again == 2 {
+			plen2 = plen / 2
+		}
+		out = packet.IP4(buf[:20:len(buf)]).SetPayload(buf[20:20+plen2], proto)
+		plen = plen2
+		if len(out) != 20+plen2 {
+			c.Viol("diff:IP4.SetPayload:length", fmt.Sprintf("second SetPayload returned %d bytes, want %d", len(out), 20+plen2), map[string]any{"plen": plen2})
+			return
+		}
+	}
 	if len(out) < 20 || !refdec.Verify1071(out[:20]) {
 		c.Viol("diff:IP4.checksum", fmt.Sprintf("IPv4 header does not sum to zero: % x", []byte(out[:min(20, len(out))])),
-			map[string]any{"ttl": ttl, "src": src.String(), "dst": dst.String(), "plen": plen, "proto": proto, "append": appendMode})
+			map[string]any{"ttl": ttl, "src": src.String(), "dst": dst.String(), "plen": plen, "proto": proto, "append": appendMode, "completed_again": again})
 		return
 	}
-	c.Class(fmt.Sprintf("ip4hdr append=%v plen-parity=%d", appendMode, plen%2))
+	c.Class(fmt.Sprintf("ip4hdr append=%v plen-parity=%d completed-again=%d", appendMode, plen%2, again))
 }
 
 func c15ICMP(c *wk.Ctx, idx *int64) {
